@@ -428,7 +428,7 @@ def wrapped_cases(rng: random.Random, big: bool) -> List[dict]:
                 for wok in ((True, False) if big else (rng.random() < 0.75,)):
                     specs.append((exts, kind, wok))
     # n = 3, 4 : (priority, behaviour, declares the called hook?) enumerated; the other hooks of the subset random
-    for n, take in ((3, None if big else 450), (4, 16000 if big else 550)):
+    for n, take in ((3, None if big else 450), (4, None if big else 550)):
         space = list(itertools.product(itertools.product(PRIOS, BEHS, [True, False]), repeat=n))
         if take is not None and take < len(space):
             space = rng.sample(space, take)
@@ -709,7 +709,7 @@ def run(rep: vlib.Reporter, tier: str, seed: int) -> None:
             found = True
 
     # ---- (C)
-    specs = e2e_specs(rng, 600 if big else 45)
+    specs = e2e_specs(rng, 1200 if big else 120)
     baseline: Dict[Tuple[int, str], Any] = {}
     ce: List[dict] = []
     for mode in ("SYNC", "THREADING"):
